@@ -1,6 +1,9 @@
 """C18 — NetCDF export/import is lossless and keeps every label attached to its data.
 
 check():  (1) Properties/C18.v theorems + Print Assumptions;
+          (1b) tie (B): harness/py2coq_io.py executes the CURRENT io.py symbolically (fail closed) into a description
+              (build/C18/GenIo.v) and coq/Bridge/IoBridge.v re-proves that its meaning (Model/IoDesc.v) is the
+              model's assemble / save / load for ALL results and tower lists;
           (2) REAL round trips save_footprints_to_netcdf -> file -> load_footprints_from_netcdf over
               towers 1..4 x steps 1..4 x 2-D/3-D x key order {config, reversed, subset, shuffled} x
               {string, integer} timestamps x {ustar, z0} forcing with hostile field values; every
@@ -23,17 +26,27 @@ import numpy as np
 import core
 
 THEOREMS = ["C18_roundtrip", "C18_assembly", "C18_coords", "C18_labels", "C18_save_succeeds",
-            "C18_labels_orig_refuted", "C18_select"]
+            "C18_labels_orig_refuted", "C18_select",
+            "C18_fill_loop", "C18_fill_first", "C18_indexing", "C18_description_meaning", "C18_description_original"]
 TRUSTED = [
     "Model/NetcdfAsm.v is hand-written (repaired save_footprints_to_netcdf: array assembly, coordinate slicing, "
-    "by-name tower metadata, met series, selection); tied to bldfm.io by exact differential execution of real "
-    "save/load round trips on every run",
+    "by-name tower metadata, met series, selection); tied to bldfm.io (A) by exact differential execution of real "
+    "save/load round trips on every run and (B) for ALL results / tower lists by harness/py2coq_io.py + "
+    "coq/Bridge/IoBridge.v (re-extracted and re-proved on every run)",
+    "harness/py2coq_io.py (fail-closed symbolic executor of save_footprints_to_netcdf / load_footprints_from_netcdf and "
+    "the module level of io.py) and the meaning Model/IoDesc.v gives its output: np.zeros + `a[i, j] = v` as shape + "
+    "index map with IndexError, `for .. in enumerate(..)` as fold_left in source order, basic indexing G[0, :, 0] on "
+    "nested lists, dict / list comprehensions over config.towers, None -> NaN on assignment into a float array, "
+    "xr.Dataset(data_vars, coords) as the record of its members looked up by name; zlib/complevel/shuffle/chunksizes/"
+    "fletcher32/contiguous are the only encoding keys taken to leave the stored values alone",
     "xarray / netCDF4 / HDF5 / zlib are not modelled: they are the Section variables write/read with the hypothesis "
     "read (write d) = d, validated (not proved) by bit-level comparison of real round trips over the property's space",
     "numpy slice assignment flx_data[t, ti] = block copies the whole block (blocks are opaque tokens in the model); "
     "validated by the bit-level comparison of every element of every block",
 ]
 ASSUMPTIONS = [
+    "tie (B): the name comparison is reflexive (eqbN a a = true: a dict finds a key it contains) - hypothesis of bridge_save / "
+    "C18_description_meaning; the encoding keys zlib/complevel/shuffle/fletcher32/contiguous/chunksizes do not change stored values",
     "results is a dict (unique keys) of equally shaped results; per-step met values and timestamps are the same for "
     "all towers (as run_bldfm_multitower produces them): they are taken from the first tower",
     "tower names in the configuration are unique and time labels str(timestamp) are pairwise distinct (needed only "
@@ -675,6 +688,9 @@ def case_size(case):
 
 def check(ctx):
     core.check_properties_file(ctx, "Properties/C18.v", THEOREMS, core.AX_NONE)
+    # tie (B): the current io.py is translated (fail closed) into a description and bridged to the model for ALL inputs
+    import py2coq_io
+    py2coq_io.run(ctx)
     bio, cp = _impl()
     workdir = tempfile.mkdtemp(prefix="c18_", dir=ctx.build)
     cases = space(ctx)
